@@ -359,7 +359,7 @@ def run(tier):
     results = {}
 
     def job(key, module, c, **kw):
-        results[key] = vlib.tlc(module, c, tag="%s-%s" % (module, c), **kw)
+        results[key] = vlib.tlc(module, c, tag="%s-%s" % (module, c), xss="512m", **kw)
 
     ths = [threading.Thread(target=job, args=("mc", "MC_Iter", cfg["mc"]), kwargs=dict(workers=max(2, vlib.NCPU // 2))),
            threading.Thread(target=job, args=("gen", "Gen_Iter", cfg["gen"]), kwargs=dict(workers=2)),
@@ -368,6 +368,9 @@ def run(tier):
         t.start()
     for t in ths:
         t.join()
+    for key, r in results.items():      # TLC reports some evaluation errors with exit code 0
+        if not r.violation and (vlib.re.search(r"^Error: ", r.out, vlib.re.M) or r.distinct == 0):
+            raise vlib.MachineryError("TLC run %s failed:\n%s" % (key, "\n".join(l for l in r.out.splitlines() if not l.startswith('<<"BEHAV"'))[-3000:]))
     ck.add_tlc(results["mc"], "exhaustive " + cfg["mc"])
     for k in ("gen", "genf"):
         if results[k].error or results[k].violation:
